@@ -43,7 +43,7 @@ func init() {
 		Race:  true,
 		Level: "fault_enumeration",
 		Rule: "table of blocking API calls (chain-sync NtC/NtN Sync, GetCurrentTip, GetAvailableBlockRange, Stop; block-fetch GetBlock, GetBlockRange, Stop; tx-submission server RequestTxIds (blocking / non-blocking), RequestTxs; local-state-query Acquire, Release, GetCurrentEra, GetSystemStart, GetChainPoint, GetEpochNo; local-tx-monitor Acquire, HasTx, NextTx, GetSizes, Release; local-tx-submission SubmitTx; peer-sharing GetPeers; keep-alive client ping; serving chain-sync / block-fetch / keep-alive / peer-sharing responders incl. restart on Done; DMQ connect) " +
-			"x peer behaviours, each applied at a reply position of the scripted correct conversation: correct; every OTHER message the library's own state map admits in that state; the reply twice; the last reply again after the conversation returned to idle; one / 600 unsolicited replies before the call; garbage (invalid CBOR, not an array, unknown message type, right type with wrong fields, empty array); a segment holding half a message; a zero-length segment; silence then close; close before the call and at every message boundary; close mid-segment and mid-header; Connection.Close() by the harness before the call / while the call waits; plus special scripts (muxer unregister race held open with the afterLookup hook; Server.Start twice in a sub-process). " +
+			"x peer behaviours, each applied at a reply position of the scripted correct conversation: correct; every OTHER message the library's own state map admits in that state; the reply twice; the last reply again after the conversation returned to idle; one / 600 unsolicited replies before the call; garbage (invalid CBOR, not an array, unknown message type, right type with wrong fields, empty array); a segment holding half a message; a zero-length segment; silence then close; close before the call and at every message boundary; close mid-segment and mid-header; Connection.Close() by the harness before the call / while the call waits; two-call histories per client object (first call steered to each outcome the peer can cause - success, every other admitted answer such as NoBlocks / Failure / RejectTx / IntersectNotFound, reply twice, garbage - then a second call of the same or another API of the same protocol, then peer close or Connection.Close() before the second request is on the wire / after it / after half its reply / after it was answered); plus special scripts (muxer unregister race held open with the afterLookup hook; Server.Start twice in a sub-process). " +
 			"Quick: the first other-message at every reply position, the remaining classes at the last reply position, two close boundaries plus close before the call, timeouts alternating between one hour and 250 ms. Thorough: every position x every variant x both timeout settings x 3 repetitions, two of them with schedule perturbation at the protocol / muxer hook points. A scenario is non-trivial when the handshake completed and the oracle was evaluated to the end; distinct by (call, behaviour, timeout setting, perturbation)",
 		MinNontrivial: 300,
 		RaceAnchors:   []string{"(*Connection).shutdown", "(*Connection).Close", "protocol.(*Protocol).Stop", "muxer.(*Muxer).UnregisterProtocol"},
@@ -233,12 +233,21 @@ func run(c *core.Ctx) {
 	for rep := 0; rep < reps; rep++ {
 		add(&scenario{Call: byKey["blockfetch.GetBlock"], Special: "unregister-race-then-peer-close", Rep: rep, Perturb: rep > 0})
 	}
+	// two-call histories
+	hs := histories(calls, msgs, thorough)
+	for _, s := range hs {
+		add(s)
+	}
+	classCount["history"] = len(hs)
+	table += len(hs)
 	// order: the behaviours that can end in a quiescence window first, so that
 	// their windows overlap with the rest of the run
 	rank := func(s *scenario) int {
 		switch {
 		case s.Special != "":
 			return 0
+		case s.Hist != nil && (s.Call.Proto == "peersharing" || s.Call.Proto == "blockfetch"):
+			return 1
 		case s.F.Class == "other" || s.F.Class == "flood" || s.F.Class == "twice":
 			return 1
 		case s.Call.Mode == "dmq" || s.Call.Proto == "peersharing":
@@ -254,6 +263,9 @@ func run(c *core.Ctx) {
 			b := s.F.key()
 			if s.Special != "" {
 				b = s.Special
+			}
+			if s.Hist != nil {
+				b = s.Hist.key(s.F)
 			}
 			if strings.Contains(s.Call.key()+":"+b, debugOnly) {
 				keep = append(keep, s)
@@ -299,7 +311,7 @@ func run(c *core.Ctx) {
 	t0 := time.Now()
 	c.Parallel("scn", len(scs), workers, func(i int, rnd *core.Rand) {
 		sc := scs[i]
-		r := &runT{c: c, sc: sc, label: strconv.Itoa(sc.ID), rnd: rnd}
+		r := &runT{c: c, sc: sc, label: strconv.Itoa(sc.ID), rnd: rnd, msgs: msgs}
 		st := time.Now()
 		r.run()
 		if logf != nil {
